@@ -140,7 +140,7 @@ func getField(b []byte, f field) uint64 {
 
 func init() {
 	commands["C09"] = func(c *ctx) {
-		c.res.Rule = "byte strings: (a) every length/count/offset field of every seed (repository images and profile, generated PNG/JPEG/WebP with ICC, generated v2 and mluc profiles) set to 40 boundary values (0,1,8,9,12,13,...,2^31-1,2^31,2^32-16..2^32-1, original+/-1), ICC fields both standalone and embedded in each container; (b) seeded structure-aware mutations (bit flips, field swaps, splices); (c) truncations; (d) pairs of neighbouring fields x {0,1,12,2^31-1,2^32-1}^2; (e) each format's first bytes followed by 70 KB / 3 MiB / 24 MiB runs of 0xFF or 0x00; each through the matching loader, autometa, Data.ICCProfile and Profile.Description, measuring escaped panics, wall time against 50 ms + 2 us/byte and runtime.MemStats.TotalAlloc against 2048 x input bytes + 1 MiB; outcome compared with the model; non-trivial = distinct input bytes"
+		c.res.Rule = "byte strings: (a) every length/count/offset field of every seed (repository images and profile, generated PNG/JPEG/WebP with ICC, generated v2 and mluc profiles) set to 40 boundary values (0,1,8,9,12,13,...,2^31-1,2^31,2^32-16..2^32-1, original+/-1), ICC fields both standalone and embedded in each container; (b) seeded structure-aware mutations (bit flips, field swaps, splices); (c) truncations; (d) pairs of neighbouring fields x {0,1,12,2^31-1,2^32-1}^2; (e) each format's first bytes followed by 70 KB / 3 MiB / 24 MiB runs of 0xFF or 0x00; (f) ICC profiles with 300 / 3000 tags sharing one region; each through the matching loader, autometa, Data.ICCProfile and Profile.Description, measuring escaped panics, wall time against 50 ms + 2 us/byte and runtime.MemStats.TotalAlloc against 2048 x input bytes + 1 MiB; outcome compared with the model; non-trivial = distinct input bytes"
 		debug.SetGCPercent(400)
 		rng := c.rng
 		type seed struct {
@@ -166,6 +166,9 @@ func init() {
 			tags := []genTag{{0x77747074, randBytes(rng, 20)}, {0x63707274, randBytes(rng, 40)}}
 			if mluc {
 				recs := []mlucRec{{"en", "US", randText(rng, 12, 0)}, {"de", "DE", randText(rng, 9, 1)}, {"ja", "JP", randText(rng, 7, 2)}}
+				if rng.Intn(2) == 0 {
+					recs[0].text = append(randText(rng, 6, 3), 0xD83D) // cut off in the middle of a surrogate pair
+				}
 				tags = append(tags, genTag{0x64657363, mlucTag(rng, recs, 12, 0)})
 			} else {
 				tags = append(tags, genTag{0x64657363, descV2([]byte("hostile profile"), randBytes(rng, 30))})
@@ -417,6 +420,22 @@ func init() {
 					run("run-of-bytes", fmt.Sprintf("%d x %#02x after the %s start", n, bv, h.fmt), h, d)
 				}
 			}
+		}
+		// (f) hundreds of tag-table entries with distinct signatures all pointing at one large region (legal in
+		// ICC): anything that copies per tag allocates tags x region
+		for _, tr := range [][2]int{{300, 20000}, {3000, 300000}} {
+			T, R := tr[0], tr[1]
+			p := randBytes(rng, 128)
+			copy(p[36:], "acsp")
+			p = append(p, be32(uint32(T))...)
+			for k := 0; k < T; k++ {
+				p = append(p, byte('A'+k%26), byte('a'+(k/26)%26), byte('0'+(k/676)%10), byte('0'+k%10))
+				p = append(p, be32(uint32(132+12*T))...)
+				p = append(p, be32(uint32(R))...)
+			}
+			p = append(p, randBytes(rng, R)...)
+			binary.BigEndian.PutUint32(p[0:], uint32(len(p)))
+			run("shared-tags", fmt.Sprintf("%d tags sharing one %d-byte region", T, R), seed{"gen:icc-shared-tags", "icc", p}, p)
 		}
 		os.Remove(current)
 		runtime.GC()
